@@ -293,7 +293,7 @@ func init() {
 					}
 				}
 				jobs = append(jobs, relJob(fmt.Sprintf("c15-%d", i), "zzH_C15",
-					map[string]string{"path": p.Text, "ast": p.Ast, "texts": p.Texts, "holes": p.Holes, "config": cfg, "single": single}, p, tier))
+					map[string]string{"path": p.Text, "ast": p.Ast, "texts": p.Texts, "holes": p.Holes, "config": cfg, "single": single, "opaque": "0"}, p, tier))
 			}
 			return jobs
 		},
